@@ -279,7 +279,7 @@ PROPS = {
                    AL + "UnitaryAlignment.n_tuple", AL + "Alignment.__iter__", CT + "Continuum.__iter__"],
         oracles=[AL + "Alignment.check"],
         bounded=[dict(oracle=AL + "Alignment.check",
-                      what="order independence is a meta-argument over the proved characterisations (they quantify over slots symmetrically); it and "
+                      what="order independence (proved as permutation-invariance lemmas of the characterising predicates) and "
                            "the conformance of the set / Counter / occurrence-table models are exercised on the real code: random valid partitions "
                            "of grid continua (2-4 annotators, <= 3 units each, unlabelled units) with 0-3 mutations among drop / duplicate / move / "
                            "re-slot / drop or repeat a unitary alignment, shuffled: check(), check(continuum), a re-shuffled copy, and "
@@ -290,7 +290,9 @@ PROPS = {
                      "continuum's pairs only): outside requires; a foreign pair held once is ignored (proved)",
                      "SoftAlignment.check raises KeyError (not SetPartitionError) when a held pair is not a pair of the continuum: proved as such "
                      "(raises KeyError iff ...), the statement only asks that the check does not succeed when a unit is missing",
-                     "order independence: not a machine-checked lemma (the characterisations are symmetric in the position of a unitary alignment)"],
+                     "order independence: three machine-checked lemmas (once / twice / equal-widths are invariant under a bijection of the positions "
+                     "of the unitary alignments, over explicit slot arrays with the formulas of the characterisations); that the verdicts are "
+                     "functions of exactly these predicates is read off the raises-iff clauses, not a separate obligation"],
         trusted=S_COMMON + ["model: builtin set / Counter (pyvc/models/pysets.py)", "model: the occurrence table of SoftAlignment.check "
                             "(pyvc/models/occmap.py)", "model: sortedcontainers enumeration invariant at the final loops (model_inv)",
                             "hash / == of (annotator, unit) pairs is component-wise (S6)"],
